@@ -139,7 +139,8 @@ std::vector<Teleport> gridTeleports(uint8_t inst, uint32_t base) {
   static const uint32_t O[] = {0, 0x10, 0xF0, 0xFFFFFF00u, 0xFFFFFFF0u, 0x00030D40u, 0x7FFFFFF0u, 0x80000000u};
   uint64_t at = 0;
   for (uint32_t lane = 0; lane < 4; lane++)
-    for (uint32_t a : A) for (uint32_t b : B) for (uint32_t o : O) {
+    for (uint32_t a : A) for (unsigned bi = 0; bi < 12; bi++) for (uint32_t o : O) {
+      uint32_t b = B[bi];
       if (inst == 0xD3 && o == 0 && a == 0) continue;                // EXIT ends a run: left to the random part
       Teleport t;
       t.at = at++;
@@ -149,7 +150,7 @@ std::vector<Teleport> gridTeleports(uint8_t inst, uint32_t base) {
       if (inst == 0xD3) {
         // System calls address their slots through the stack pointer: breg's corner index picks it.
         static const uint32_t SP[] = {150000, 0xFFFFFFFFu, 0xFFFFFFFEu, 0xFFFFFFFDu, 0xFFFFFFFCu, 0, 1, 199996, 199997, 199995, 100, 16383};
-        t.hasSp = true; t.sp = SP[(&b - B) % 12];
+        t.hasSp = true; t.sp = SP[bi];
       }
       out.push_back(t);
     }
